@@ -515,6 +515,13 @@ func (e *Exec) loopEnv(fr *Frame, li *loopInfo, st *State, from *ssa.BasicBlock)
 			env.vars["iter"] = vInt(sx("+", v.t(), "1"))
 		} else if phi.Comment != "" {
 			env.vars[phi.Comment] = v
+			if !hasRangeIndex(li.header) && v.K == KInt {
+				if init, ok := countedLoopInit(li, phi); ok {
+					if iv := e.val(fr, init, st); iv.K == KInt {
+						env.vars["iter"] = vInt(sx("-", v.t(), iv.t()))
+					}
+				}
+			}
 		}
 		env.vars[phi.Name()] = v
 	}
